@@ -1,5 +1,6 @@
 import MLPE.Proofs.Safe
 import MLPE.Proofs.WakeUp
+import MLPE.LiveSpec
 
 /-!
 # Stuck-freedom of pipelines with switches (no one-of, no recurrent subgraph), under every schedule
@@ -40,13 +41,6 @@ theorem not_stuck_of_live {s : St} {i : Nat} {tk : Task} (h : s.tasks[i]? = some
   · have : hasExternal s = true := by
       unfold hasExternal; exact List.any_eq_true.mpr ⟨tk, hm, by simp [h1]⟩
     simp [this]
-
-/-- the sources the readiness check of `m` looks at, before switch sources are resolved to their selected case -/
-def basePreds (P : Program) (m : Node) : List Node :=
-  if P.g.isSwitch m then (P.g.edges.filter (fun e => e.v == m && e.isSwitch)).map (·.u) else P.g.preds m
-
-def resolveSw (P : Program) (s : St) (p : Node) : Node :=
-  if P.g.isSwitch p then (match s.sw p with | some (_, c) => c | none => p) else p
 
 /-- the node frame is past `on_node_start`: the task executes the node -/
 def NodePc.exec : NodePc → Bool
